@@ -4,6 +4,7 @@ import time
 import numpy as np
 from . import common as C
 from vf import harness
+from vf import solve as _solve
 
 PID = "C07"
 
@@ -236,7 +237,7 @@ def batching(B, G, kind, N, bs, nbs, epochs=2, form="tensor"):
             s.add(*cons)
             s.add(z3.Or(viol))
             t1 = time.time()
-            res = str(s.check())
+            res = _solve._chk(s)
             cex = None
             if res == "sat":
                 m = s.model()
@@ -276,7 +277,7 @@ def batching(B, G, kind, N, bs, nbs, epochs=2, form="tensor"):
         first = draws[0][1][0] if draws else None
         if first is not None and N > 1:
             s.add(first != 0)
-            res = str(s.check())
+            res = _solve._chk(s)
             cex = None
             if res == "sat":
                 m = s.model()
